@@ -68,7 +68,7 @@ class C12(CheckBase):
         self._ref = {}
 
     def n_plans(self, tier):
-        return 200 if tier == "quick" else 6000
+        return 300 if tier == "quick" else 6000
 
     def time_budget(self, tier):
         return 170 if tier == "quick" else 1700
